@@ -33,6 +33,7 @@ const SYSTEM: &str = "anstyle_svg::Term::render_svg";
 // ---------------------------------------------------------------- tokens
 
 #[derive(Clone, Debug)]
+#[allow(dead_code)]
 struct Tok {
     label: String,
     bytes: Vec<u8>,
@@ -67,7 +68,7 @@ const SGR_RICH: &[&str] = &[
     "8", "21", "4:1", "4:2", "4:4", "4:5", "30", "32", "33", "34", "35", "36", "90", "91", "93", "94", "95", "96", "97",
     "40", "41", "42", "43", "45", "46", "47", "100", "101", "102", "104", "105", "106", "107", "38;5;0", "38;5;15",
     "38;5;16", "38;5;231", "38;5;232", "38;5;255", "48;5;7", "48;5;8", "48;5;255", "58;5;100", "38:2:1:2:3",
-    "48:5:100", "58:2:9:8:7", "38;2;0;0;0", "48;2;255;255;255", "4:0", "1;3;4;9", "38;5;9;48;5;12;58;5;10", "7;38;2;9;9;9;2",
+    "48:5:100", "58:2:9:8:7", "38;2;0;0;0", "48;2;255;255;255", "4:0", "1;3;4;9", "38;5;9;48;5;12;58;5;10", "7;38;2;9;9;9;2", "01", "031", "50", "255",
 ];
 
 fn non_sgr() -> Tok {
@@ -89,6 +90,10 @@ fn alphabet(multi_any: bool, rich: bool) -> Vec<Tok> {
         // not SGR: private marker / intermediate before the final byte, OSC title
         v.push(Tok { label: "CSI>4;2m".into(), bytes: b"\x1b[>4;2m".to_vec(), text: false });
         v.push(Tok { label: "OSC-title".into(), bytes: b"\x1b]0;t<&\x07".to_vec(), text: false });
+        v.push(Tok { label: "CSI?25h".into(), bytes: b"\x1b[?25h".to_vec(), text: false });
+        v.push(Tok { label: "ESC-c".into(), bytes: b"\x1bc".to_vec(), text: false });
+        v.push(Tok { label: "DCS".into(), bytes: b"\x1bPqx\x1b\\".to_vec(), text: false });
+        v.push(Tok { label: "\"\u{e9}\"".into(), bytes: "\u{e9}".as_bytes().to_vec(), text: true });
     }
     v
 }
@@ -340,6 +345,7 @@ fn denote(rule: &Rule) -> Result<Deno, String> {
 }
 
 #[derive(Clone, Debug)]
+#[allow(dead_code)]
 struct Span {
     classes: Vec<String>,
     text: String,
@@ -705,6 +711,7 @@ fn run_case(input: &[u8], cfg: Cfg) -> (Result<(), Viol>, CaseStats, Option<Stri
 const EXPAT_PY: &str = r#"
 import sys, struct, json
 from xml.parsers import expat
+cap = int(sys.argv[1]) if len(sys.argv) > 1 else 500
 inp = sys.stdin.buffer
 n = 0
 bad = []
@@ -720,7 +727,7 @@ while True:
         p = expat.ParserCreate()
         p.Parse(doc, True)
     except expat.ExpatError as e:
-        if len(bad) < 500:
+        if len(bad) < cap:
             bad.append([meta.decode('utf-8', 'replace'), str(e)])
         else:
             bad.append(None)
@@ -733,11 +740,15 @@ struct Expat {
 
 impl Expat {
     fn start(n: usize) -> Option<Expat> {
+        Self::start_with_cap(n, 500)
+    }
+    fn start_with_cap(n: usize, cap: usize) -> Option<Expat> {
         let mut workers = vec![];
         for _ in 0..n {
             let mut child = std::process::Command::new("python3")
                 .arg("-c")
                 .arg(EXPAT_PY)
+                .arg(cap.to_string())
                 .stdin(std::process::Stdio::piped())
                 .stdout(std::process::Stdio::piped())
                 .stderr(std::process::Stdio::null())
@@ -789,7 +800,7 @@ fn xml_reader_selfcheck(n: usize) -> Result<serde_json::Value, String> {
         "<!--c-->", "<?p?>", "<![CDATA[<]]>", "\u{c}", "\u{fffe}", "\u{4e16}", "<a b='<'>", "<a b='1' b='2'/>", "&lt", "<a b=c>",
     ];
     let docs: Vec<String> = strings_upto(frags.len(), n).map(|ix| ix.iter().map(|&i| frags[i]).collect::<String>()).collect();
-    let ex = Expat::start(4).ok_or("python3 not available")?;
+    let ex = Expat::start_with_cap(4, usize::MAX >> 8).ok_or("python3 not available")?;
     let mine: Vec<bool> = docs.par_iter().map(|d| xml::parse(d).is_ok()).collect();
     for (i, d) in docs.iter().enumerate() {
         if !ex.send(i as u64, &i.to_string(), d) {
@@ -797,9 +808,6 @@ fn xml_reader_selfcheck(n: usize) -> Result<serde_json::Value, String> {
         }
     }
     let (cnt, bad, bad_total) = ex.finish()?;
-    if bad_total as usize != bad.len() {
-        // more than the reported cap rejected: compare counts only
-    }
     let rejected: HashSet<usize> = bad.iter().filter_map(|(m, _)| m.parse().ok()).collect();
     let mut disagreements = vec![];
     let complete = bad_total as usize == bad.len();
@@ -837,8 +845,9 @@ fn main_check(ctx: &Ctx) -> Outcome {
     let clause_counts = Mutex::new(HashMap::<&'static str, u64>::new());
     let viol = Mutex::new(Vec::<Finding>::new());
     let expat = if quick { None } else { Expat::start(8) };
-    let expat_sent = Mutex::new(HashSet::<u64>::new());
-    let expat_cap: u64 = 6_000_000;
+    let expat_sent: Vec<Mutex<HashSet<u64>>> = (0..64).map(|_| Mutex::new(HashSet::new())).collect();
+    let expat_count = AtomicU64::new(0);
+    let expat_cap: u64 = 12_000_000;
 
     let sweep = |alpha: &[Tok], n: usize, label: &str, with_expat: bool| -> u64 {
         let total: u64 = (0..=n).map(|l| (alpha.len() as u64).pow(l as u32)).sum();
@@ -872,11 +881,10 @@ fn main_check(ctx: &Ctx) -> Outcome {
                 }
                 if with_expat {
                     if let (Some(ex), Some(svg)) = (&expat, &svg) {
-                        let fresh = {
-                            let mut g = expat_sent.lock().unwrap();
-                            (g.len() as u64) < expat_cap && g.insert(st.out_hash)
-                        };
+                        let fresh = expat_count.load(Ordering::Relaxed) < expat_cap
+                            && expat_sent[(st.out_hash >> 58) as usize].lock().unwrap().insert(st.out_hash);
                         if fresh {
+                            expat_count.fetch_add(1, Ordering::Relaxed);
                             let meta = json!({"input": hex(&input), "cfg": cfg.to_json(), "ntokens": len}).to_string();
                             ex.send(st.out_hash, &meta, svg);
                         }
@@ -909,7 +917,7 @@ fn main_check(ctx: &Ctx) -> Outcome {
 
     let base = alphabet(multi_any, false);
     let n = if quick { 3 } else { 4 };
-    let total = sweep(&base, n, "base", n <= 3);
+    let total = sweep(&base, n, "base", true);
     out.push_part(json!({"sweep":"base alphabet","tokens":base.len(),"max_tokens":n,"token_strings":total,"configurations":cfgs.len(),
                          "token_labels": base.iter().map(|t| t.label.clone()).collect::<Vec<_>>()}));
     if !quick {
@@ -932,9 +940,9 @@ fn main_check(ctx: &Ctx) -> Outcome {
                     std::process::exit(2);
                 }
                 Ok((n_docs, bad, bad_total)) => {
-                    let capped = expat_sent.lock().unwrap().len() as u64 >= expat_cap;
+                    let capped = expat_count.load(Ordering::Relaxed) >= expat_cap;
                     out.set("expat", json!({"distinct_documents_parsed": n_docs, "rejected": bad_total, "capped": capped,
-                        "scope": "every distinct output of the rich-alphabet sweep (<= 3 tokens, all configurations)"}));
+                        "scope": "every distinct output of both sweeps, all configurations (up to the cap)", "cap": expat_cap}));
                     if capped {
                         exhaustive = false;
                     }
@@ -984,7 +992,7 @@ fn main_check(ctx: &Ctx) -> Outcome {
             });
         if dominated {
             suppressed += 1;
-        } else if kept.len() < 200 {
+        } else if kept.len() < 200 && kept.iter().filter(|k| k.clause == f.clause).count() < PER_CLAUSE_CAP {
             kept.push(f);
         } else {
             suppressed += 1;
@@ -1025,6 +1033,9 @@ fn main_check(ctx: &Ctx) -> Outcome {
 /// see DESIGN.md section 7 item 7: flipped to `true` once the adapter no longer leaks its
 /// sub-state from one SGR parameter to the next
 const MULTI_ANY_DEFAULT: bool = true;
+
+/// at most this many minimal cases are listed per violated clause (the rest is counted)
+const PER_CLAUSE_CAP: usize = 25;
 
 fn replay(v: &serde_json::Value) -> Result<(), String> {
     let input = unhex(v["input"].as_str().ok_or("replay without input")?);
